@@ -81,6 +81,12 @@ CHECKS = {
          "3x2 over {-2,0,1,2} with sentinel 1 x 8 modes (32k cases; negative control: sentinel-initialised loop = repaired defect D8). Real grid_search calls "
          "with table-driven score functions scaled by 1, 1/4 and 2**61 (beyond sys.maxsize), ties, every optimum position, processes 1,2,4(..cores); TLC checks "
          "parameters, individual scores, the aggregate (cross-multiplied rational) and the best index of every call."),
+ "C17": ("Collectors", "6 C17", "Collectors.tla: a stepping model whose priority-0 system changes the population (join/leave/touch) before the collectors run; agent "
+         "collectors with windows, per-agent functions returning values or nothing, composite functions and timestep; file collectors with the code's "
+         "counter algorithm next to the declarative flush rule. TLC checks append-only records, no empty record, file o held = everything collected, "
+         "flush exactly after every (write_count+1)-th collection, no duplicate line (negative control: <= in the flush test). Graph walks, a write_count x "
+         "records-per-collection sweep and random histories run on real AgentCollector / FileCollector objects writing real temporary files; after EVERY "
+         "timestep (= every stop point) TLC compares deep copies of all records, the file text and the held records."),
 }
 
 TECH = "TLA+ specification model-checked with TLC; implementation traces (spec->code graph walks and code->spec drivers) validated by TLC against the trace specification"
